@@ -143,6 +143,18 @@ def check_vector(v):
             with bnp.open(out_path, "w") as w:
                 w.write(data[sel])
             return _project(bnp.open(out_path).read())
+
+        def touched_then_written():
+            # a history on one object: read a variable-length field of the selection, write the selection, read every field of it
+            sub = bnp.open(path).read()[sel]
+            sub.name
+            with bnp.open(out_path[:-4] + "_2.bam", "w") as w:
+                w.write(sub)
+            return _project(sub)
+        o2 = outcome(touched_then_written)
+        n += 1
+        if o2[0] != "ok" or not _same(exp[sel], o2[1]):
+            rep("a selection of BAM records no longer decodes to its records after it was written", "fields-after-write-" + sel_name, len(exp[sel]), str(o2)[:300])
         o = outcome(roundtrip)
         n += 1
         if o[0] != "ok" or not _same(exp[sel], o[1]):
